@@ -164,6 +164,15 @@ def main():
                 continue
             # budget sanity: a success never has a negative remainder; what was spent implies a
             # bounded number of steps
+            # the cost the public API reports (`EvalResult::cost()` = initial - remaining) must be computable
+            # and equal to what was charged: a saturated builtin cost must not overflow it (checked build:
+            # panic; plain build: a wrapped, negative cost)
+            if "cost_api_panic" in r:
+                chk.violation(f"C10|eval|reported-cost-overflows|{label}", {**w, "build": label, "panic": r["cost_api_panic"], "remaining": r.get("remaining")})
+                bad = True
+            elif "cost_api" in r and (r["cost_api"] != r.get("cost") or min(r["cost_api"]) < 0):
+                chk.violation(f"C10|eval|reported-cost-wraps|{label}", {**w, "build": label, "cost_reported_by_api": r["cost_api"], "charged": r.get("cost"), "remaining": r.get("remaining")})
+                bad = True
             if "ok" in r and min(r.get("remaining", [0, 0])) < 0:
                 chk.violation("C10|eval|success-with-negative-remaining-budget", {**w, "observed": r})
                 bad = True
